@@ -8,7 +8,7 @@ From Coq Require Import String.
 From Coq Require Import List NArith ZArith QArith Qround Bool Permutation Sorted.
 From RareV Require Import Base.Hex Base.Num Base.Res Model.Agg Model.Welford Corr.C07Case
   Proofs.AggMap Proofs.AggCounter Proofs.AggSubkey Proofs.AggTableWf Proofs.AggTable Proofs.AggTableTot
-  Proofs.AggAccum Proofs.AggTrim Proofs.WelfordProof Proofs.AggCheck.
+  Proofs.AggAccum Proofs.AggTrim Proofs.AggLawDefs Proofs.AggLawMeaning Proofs.AggLaw Proofs.WelfordProof Proofs.AggCheck.
 Import ListNotations.
 Close Scope Q_scope.
 
@@ -100,56 +100,54 @@ Theorem C07_table_perm : forall d h1 h2, Permutation h1 h2 -> t_run d h1 = t_run
 Proof. exact table_perm_proof. Qed.
 Print Assumptions C07_table_perm.
 
-(* ------------------------------------------------------------------ Trim *)
-(* FULL statement of the property ("removes exactly the selected cells plus any row or column left
-   empty", totals = sums of the remaining cells) is FALSE of the code (recorded finding
-   C07-trim-stale, not repaired): a value predicate keeps an emptied column with its old total ... *)
-Theorem C07_trim_refuted : exists h pred, let t := t_run 0%N h in trim pred t <> spec_trim pred t.
+(* ------------------------------------------------------------------ Sample / Trim histories *)
+(* THE LAW OF THE TABLE.  After ANY history of Sample and Trim calls (Trim as repaired by fix
+   C07-trim-stale; every Trim with whatever order Go's map range visited the columns in), the table is
+   exactly the table determined by its cells: well-formed cells (rows and cells in key order, no empty
+   row); every row sum = sum of its cells; every column total = sum of that column's cells over the
+   rows (absent = 0); Columns() = exactly the columns having a cell; Sum() = sum of all cells. *)
+Theorem C07_table_law : forall d ops, ops_valid d t0 ops ->
+  let t := t_ops d ops in let cs := cells_of t in
+  cs_ok cs /\ t = rebuild cs (t_errors t) /\
+  (forall r cells sm, In (r, (cells, sm)) (t_rows t) -> sm = wrap64 (zsum (map snd cells))) /\
+  (forall c, afind c (t_cols t) = if mem c (allcols cs) then Some (wrap64 (colsum c cs)) else None) /\
+  (forall c, In c (map fst (t_cols t)) <-> exists r cells, In (r, cells) cs /\ In c (map fst cells)) /\
+  t_sum t = wrap64 (zsum (map (fun rw : bytes * amap Z => zsum (map snd (snd rw))) cs)).
+Proof. exact table_law_proof. Qed.
+Print Assumptions C07_table_law.
+
+(* ... and the cells themselves follow the straightforward fold: a valid Sample adds its increment to
+   one cell, a Trim removes exactly the selected cells and the rows left empty (cs_op / cs_trim) *)
+Theorem C07_table_ops : forall d ops, ops_valid d t0 ops ->
+  t_ops d ops = rebuild (fst (cs_ops d ops)) (snd (cs_ops d ops)) /\ cs_ok (fst (cs_ops d ops)).
+Proof. exact table_ops_proof. Qed.
+Print Assumptions C07_table_ops.
+
+(* C07_trim, full statement: on every reachable table, for every predicate and every visiting order,
+   Trim removes exactly the selected cells plus any row or column left empty, and all totals are those
+   of the remaining cells (spec_trim) *)
+Theorem C07_trim : forall d ops pred order, ops_valid d t0 ops ->
+  let t := t_ops d ops in Permutation order (map fst (t_cols t)) ->
+  trimf_order pred order t = spec_trim pred t.
+Proof. exact trim_full_proof. Qed.
+Print Assumptions C07_trim.
+
+(* Go's map iteration order never shows: two valid histories with the same calls give the same table *)
+Theorem C07_table_order_irrelevant : forall d a b,
+  same_calls a b -> ops_valid d t0 a -> ops_valid d t0 b -> t_ops d a = t_ops d b.
+Proof. exact table_order_irrelevant. Qed.
+Print Assumptions C07_table_order_irrelevant.
+
+(* as found (before fix C07-trim-stale; [trim] is the loop without the recomputation) the full
+   statement was false: a value predicate kept an emptied column with its old total ... *)
+Theorem C07_trim_asfound_refuted : exists h pred, let t := t_run 0%N h in trim pred t <> spec_trim pred t.
 Proof. exact trim_refuted. Qed.
-Print Assumptions C07_trim_refuted.
-(* ... and even for a column predicate the surviving rows keep their old Sum() *)
-Theorem C07_trim_refuted_colpred : exists h sel,
+Print Assumptions C07_trim_asfound_refuted.
+(* ... and even for a column predicate the surviving rows kept their old Sum() *)
+Theorem C07_trim_asfound_refuted_colpred : exists h sel,
   let pred := fun (c _ : bytes) (_ : Z) => sel c in let t := t_run 0%N h in trim pred t <> spec_trim pred t.
 Proof. exact trim_refuted_colpred. Qed.
-Print Assumptions C07_trim_refuted_colpred.
-
-(* What IS true, for every predicate and every visiting order of Go's column map: the rows and their
-   cells after Trim are exactly those of the specification (a cell stays iff the predicate rejects
-   it, a row stays iff it keeps a cell); no column with a remaining cell is lost, no column is
-   invented, surviving columns keep their total; surviving rows keep their (old) sum. *)
-Theorem C07_trim_partial : forall pred order t, t_wf t -> Permutation order (map fst (t_cols t)) ->
-  cells_of (trim_order pred order t) = cells_of (spec_trim pred t) /\
-  (forall c, In c (map fst (t_cols (trim_order pred order t))) -> In c (map fst (t_cols t))) /\
-  (forall c, In c (map fst (t_cols (spec_trim pred t))) -> In c (map fst (t_cols (trim_order pred order t)))) /\
-  (forall c, In c (map fst (t_cols (trim_order pred order t))) ->
-     afind c (t_cols (trim_order pred order t)) = afind c (t_cols t)) /\
-  (forall r cells sm, In (r, (cells, sm)) (t_rows (trim_order pred order t)) -> exists cells0, In (r, (cells0, sm)) (t_rows t)).
-Proof.
-  intros pred order t W P. split; [apply trim_cells_proof; assumption|].
-  destruct (trim_cols_subset pred order t W P) as (A & B & C). repeat split; try assumption.
-  apply trim_sums_stale; assumption.
-Qed.
-Print Assumptions C07_trim_partial.
-
-(* column predicates (the program's only use, cmd/spark.go): cells, columns and column totals are
-   exactly the specification's, whatever the visiting order *)
-Theorem C07_trim_partial_cols : forall (sel : bytes -> bool) order t,
-  t_wf t -> t_totals_ok t -> Permutation order (map fst (t_cols t)) ->
-  let pred := fun (c _ : bytes) (_ : Z) => sel c in
-  cells_of (trim_order pred order t) = cells_of (spec_trim pred t) /\
-  t_cols (trim_order pred order t) = t_cols (spec_trim pred t).
-Proof. exact trim_colpred_proof. Qed.
-Print Assumptions C07_trim_partial_cols.
-
-(* row predicates: the surviving rows are untouched (so their sums are right) *)
-Theorem C07_trim_partial_rows : forall (sel : bytes -> bool) order t,
-  t_wf t -> Permutation order (map fst (t_cols t)) ->
-  let pred := fun (_ r : bytes) (_ : Z) => sel r in
-  t_rows (trim_order pred order t) = filter (fun rw => negb (sel (fst rw))) (t_rows t).
-Proof. exact trim_rowpred_proof. Qed.
-Print Assumptions C07_trim_partial_rows.
-
-(* the hypotheses of the Trim theorems hold of every table produced by Sample: C07_table_totals *)
+Print Assumptions C07_trim_asfound_refuted_colpred.
 
 (* ------------------------------------------------------------------ accumulating group *)
 (* for ANY expression evaluator: the row of group g is the fold of the row step (columns evaluated
@@ -231,7 +229,8 @@ Proof. exact wrap64_small. Qed.
 Print Assumptions C07_wrap64_small.
 
 (* the boolean form used on the implementation's outputs accepts everything the model produces
-   (counter, sub-key, table, accumulator histories after every prefix; permutation pairs) *)
+   (counter, sub-key, table, accumulator histories after every prefix; Sample/Trim histories;
+   permutation pairs) *)
 Theorem C07_check_sound : forall i, exact_kind i -> check i (model i) = true.
 Proof. exact check_sound_proof. Qed.
 Print Assumptions C07_check_sound.
